@@ -6,7 +6,10 @@ def plan(tier):
     return {
         "mc": [{"module": "SuffixIndexMC_C03",
                 "cfg": "SuffixIndexMC_C03.cfg" if q else "SuffixIndexMC_C03_thorough.cfg",
-                "timeout": 1500, "args": ["-coverage", "1"]}],
+                "timeout": 1500, "args": ["-coverage", "1"]},
+               {"module": "SuffixIndexMC_C03s",
+                "cfg": "SuffixIndexMC_C03s.cfg" if q else "SuffixIndexMC_C03s_thorough.cfg",
+                "timeout": 3000, "args": ["-coverage", "1"]}],
         "families": [{"fam": "sa", "trace": "SuffixIndexTraceSa", "nfiles": 2, "timeout": 3000}],
         "required_obligations": ["exhaustive_small", "recursion_smallest_witness", "single_lms", "random_multi_sentinel", "random_long", "transform_u16",
                                  "transform_u8_limit_255", "transform_u16_limit_256", "int_alphabet_gt_255", "int_u8",
@@ -20,7 +23,9 @@ def plan(tier):
                 ">255 symbol classes (u16 transform) and the 255/256 limit, dense integer texts (alphabet up to 1200, "
                 "u8/u16/u32/usize), planted repeats of length 125..129, 200, 254..256 around the SmallInts escape value",
         "bounds": {"mc": "Sym={a,b}+sentinel, n<=6 (quick) / 7 (thorough), <=3 sentinel occurrences; s in 1..n+1, "
-                         "Occ rates {1,2,3} with T=1, Esc=2",
+                         "Occ rates {1,2,3} with T=1, Esc=2; SA-IS machine: all texts over {a,b}+<=3 sentinels n<=8 (quick) / 10 "
+                         "(thorough) plus Fibonacci/Thue-Morse/period-5/(ab)^k a/two-copy texts of length 21..55 "
+                         "(recursion depth up to 3)",
                    "impl": "n<=2000 random, <=300 repetitive; s in {1,2,3,5,n,n+1}; Occ rates {1,3,64,65,128}"},
         "assumptions": ["ndJsonDeserialize/TLC evaluate the TLA+ definitions faithfully",
                         "texts end with their smallest symbol; integer texts use every value of 0..=max and end in a "
@@ -31,16 +36,18 @@ def plan(tier):
 
 
 MANIFEST = {
-    "technique": "TLA+ definition of the sentinel-aware suffix order (Transform), LCP, SUS, sampling; machines of the "
+    "technique": "TLA+ definition of the sentinel-aware suffix order (Transform), LCP, SUS, sampling; machines of "
+                 "SA-IS (types, LMS collection, induced sorts, naming, recursion stack), the "
                  "Kasai loop (with SmallInts escape), the SUS formula and the sampled-array LF walk model-checked by "
                  "TLC; traces of the real suffix_array/suffix_array_int/lcp/shortest_unique_substrings/"
                  "SampledSuffixArray validated by TLC against the definitions",
     "text": "TLC exhausts all texts over 2 symbols plus up to 3 sentinel occurrences (n<=6/7): the order is a strict "
-            "total order with the stated sentinel rules and has exactly one sorted permutation; the Kasai machine "
+            "total order with the stated sentinel rules and has exactly one sorted permutation; the SA-IS machine (transcribed phase by phase, shared "
+            "buffers, explicit recursion) ends every level with the suffix array of its text; the Kasai machine "
             "yields LcpDef, the SUS formula yields the brute-force SUS, the sampled-array walk returns sa[i] for every "
             "rate and index; every recorded suffix array, integer suffix array, LCP array, SUS vector and sampled get "
             "of the real code must satisfy the same definitions",
-    "note": "bounded: MC n<=6/7; implementation side n<=2000 (repetitive <=300); SA-IS itself is validated only through "
-            "its results (no phase hooks); TLC's evaluator and the JSON projection of the harness are trusted",
+    "note": "bounded: MC n<=6/7; implementation side n<=2000 (repetitive <=300); the real SA-IS is bound to the specification through "
+            "its results only (no phase hooks; the SA-IS machine is model-checked, not trace-stepped); TLC's evaluator and the JSON projection of the harness are trusted",
     "ref": "sec. 5 C03",
 }
